@@ -9,7 +9,8 @@ TGT = '/tmp/benign-target'
 S = 'src/engine/search/mod.rs'
 EDITS = {
  'search_params_retuned': [(S, 'ASPIRATION_WINDOW_SIZE: Eval = Eval::new(25)', 'ASPIRATION_WINDOW_SIZE: Eval = Eval::new(40)'),
-                           (S, 'NULL_MOVE_PRUNING_DEPTH_REDUCTION: u8 = 2', 'NULL_MOVE_PRUNING_DEPTH_REDUCTION: u8 = 3'),
+                           # (null-move reduction 3 with depth limit 3 underflows `depth - 1 - R`: not a benign change;
+                           #  every search check reported the resulting crash / endless search, as it should)
                            (S, 'LMR_MOVE_THRESHOLD: usize = 3', 'LMR_MOVE_THRESHOLD: usize = 4'),
                            (S, 'FUTILITY_PRUNE_MAX_MOVE_VALUE: Eval = Eval::new(135)', 'FUTILITY_PRUNE_MAX_MOVE_VALUE: Eval = Eval::new(200)'),
                            (S, 'REVERSE_FUTILITY_PRUNE_MARGIN_PER_PLY: Eval = Eval::new(150)', 'REVERSE_FUTILITY_PRUNE_MARGIN_PER_PLY: Eval = Eval::new(120)'),
